@@ -9,6 +9,10 @@ not the engine: many engine-specific forms cannot be read back faithfully (e.g. 
 "text" records, per engine and call, the SHAPE of a statement that does not parse / is not a textual fixed point of parse+render on the
 unchanged tree (most are sqlglot generator/parser asymmetries); the check reports those as the listed known findings and anything
 else (another call, another shape) as a regression.
+"expr" records, per engine and call, the TEXT each call's expression renders to in the engine's execution dialect (what the
+engine-specific branch of the function emits for that argument shape).  Some slips change that text in a way the DuckDB
+transpilation cannot tell apart (ROUND(x) vs ROUND(CAST(x AS DECIMAL)) on Postgres: ties to even vs half up); the check reports a
+change of the recorded text of an engine-sensitive function as a broken T1 tie naming (function, engine).
 Nothing here is an oracle for the property itself."""
 import json
 import os
@@ -32,9 +36,10 @@ def main():
         if "fatal" in r:
             raise SystemExit(f"{e}: {r['fatal']}")
     duck = {f["id"]: f for f in results["duckdb"]["functions"]}
-    out, text = {}, {}
+    out, text, expr = {}, {}, {}
     for e, r in results.items():
         text[e] = {}
+        expr[e] = {f["id"]: f.get("expr") for f in r["functions"] if f.get("expr")}
         for f in r["functions"]:
             shape, _ = c12.text_shape(f)
             if shape:
@@ -47,7 +52,7 @@ def main():
     path = os.path.join(core.VERIF, "oracle", "c12_function_baseline.json")
     with open(path, "w") as fh:
         json.dump({"recorded_with": {"sqlglot": __import__("sqlglot").__version__, "duckdb": __import__("duckdb").__version__},
-                   "outcomes": out, "text": text}, fh, indent=1, sort_keys=True)
+                   "outcomes": out, "text": text, "expr": expr}, fh, indent=1, sort_keys=True)
     print({e: len(v) for e, v in text.items()})
     print(path, {e: {k: list(v.values()).count(k) for k in ("agree", "names-differ", "differ", "rejected", "duck-unsupported")} for e, v in out.items()})
 
